@@ -12,6 +12,8 @@ CL = {
          "three constructible factories x orientation x conditional; BNAF / triangular-spline factories cannot be constructed here; third clause proved for affine-type transforms (elsewhere follows from clauses 1-2 with C01/C02)"),
  "C05": (E1, "the traced log_prob of every family (parameters and x symbolic) is proved equal by z3 to the textbook log-density written as z3 terms (1e-9 tolerance only for float literals), -inf outside the support where the code selects it, accessor-parameterised, summed over event dimensions; mixtures: exp(log_prob) == softmax-weighted sum for ARBITRARY component log-densities, summands are the components' log-densities, invariance under weight rescaling; sample(key) == loc + scale * standard sample(key)",
          "NOT decided: that samples follow the density (statistical). lgamma uninterpreted; unwrapped parameters under the invariant proved in C11; shapes () and (2,)"),
+ "C06": (E1, "the batched public calls are traced at every pair of leading batch shapes of a lattice and interpreted symbolically; every output element is proved equal to the unbatched call on the slice picked by NumPy broadcasting (reference slices chosen with NumPy, not jnp); result shapes; sampling: element i equals the unbatched private draw with its own key split(key, n)[i] (PRNG primitives are per-key uninterpreted functions), same key => identical terms",
+         "batch lattice {(),(1,),(2,),(2,1),(1,2)}^2 x sample_shapes {(),(2,),(2,1)}; three distributions incl. scalar event with scalar condition; statistical independence of jax.random trusted"),
  "C07": (E1, "the traced transform of every elementary bijection is proved equal (z3, per domain case) to reference formulas written from the documentation / cited papers (affine, triangle of the given matrix, exp/softplus/tanh, leaky-tanh tangent line, all permutations, planar with the constrained u, eq. 4 of the spline paper per bin, knots, derivative at knots, monotonicity, identity outside / at initialisation); constructors traced with symbolic arguments",
          "floats as exact reals; K=1 (quick) / K<=3 (thorough); LeakyTanh constructor constants validated numerically (1e-12) for 5 values of max_val; Permute enumerated over all permutations of <=4 elements"),
  "C15": (E2, "the real fit_to_data / train_val_split / get_batches / _add_batch run on fake arrays whose rows are symbolic tags; jax.random.permutation is an uninterpreted bijection per (key, length); z3 proves partition, x/condition pairing, at-most-once use, trailing-remainder-only skipping, no validation leakage, fresh keys and reproducibility for ALL permutations; failures replayed on the real fit_to_data with host callbacks",
